@@ -7,8 +7,10 @@ Serial model of the read loop (`rdFrame`, `handleSettings`, `applyPairs`) and of
 `writeRequest`, after fix F47 (a SETTINGS frame no longer resets what it does not mention) and the repair of
 F09c: every SETTINGS_HEADER_TABLE_SIZE value reaches the write loop's encoder as "smallest since the last
 request, then last" (`noted_*`, `applied_*`, `dip_announced`), so a size that dips and comes back is announced.
-Not met and recorded as known: ENABLE_PUSH=0 is never transmitted (F35); a request's header block is
-one HEADERS frame whatever the server's MAX_FRAME_SIZE (F33, shared with the server half).
+F35 is repaired as well: the SETTINGS frame of the handshake carries ENABLE_PUSH=0 (`advertises_push_off`), and the
+zeros of the client's never-reset `Settings` still stay off the wire (`advertises_nothing_else`).
+Not met and recorded as known: a request's header block is one HEADERS frame whatever the server's MAX_FRAME_SIZE
+(F33, shared with the server half).
 -/
 namespace H2.Props.C18c
 
@@ -302,6 +304,24 @@ example :
 
 /-- what the code did before: told of the last value only, the encoder announced nothing -/
 example : (cF09.enc.setMax 4096).pending = false := by decide
+
+/-! ### what the client advertises (finding F35, repaired) -/
+
+/-- **ENABLE_PUSH=0 is transmitted**: the SETTINGS frame of the handshake carries the pair (2, 0) … -/
+theorem advertises_push_off : (Gen.c_EnablePush, 0) ∈ handshakeSettings := by decide
+
+/-- … and beside it the stream window the client gives the server, nothing else: the untouched zeros of the client's
+`Settings` (table size, stream limit, frame size — none of which it means) are not announced -/
+theorem advertises_nothing_else :
+    handshakeSettings = [(Gen.c_EnablePush, 0), (Gen.c_MaxWindowSize, Gen.c_clientMaxWindow)] := by decide
+
+/-- what `Encode` did before the repair (no mark looked at, `false` encoded as absent): the window alone -/
+example : Frame.settingsEncode { ownSettings with hasPush := false } = [0, 4, 0, 16, 0, 0] := by decide
+
+/-- the marks are what makes the difference for every value that may be zero: set to 0 it is written, untouched it is not -/
+theorem encode_zero_iff_marked (id : Nat) (has : Bool) :
+    Frame.settingsPair id 0 has = (if has then toBe16 id ++ toBe32 0 else []) := by
+  cases has <;> simp [Frame.settingsPair]
 
 /-- non-vacuity of `acks` -/
 example : ∃ c f s, f.stream = 0 ∧ f.body = Frame.Body.settings s ∧ s.ack = false ∧
